@@ -24,7 +24,7 @@ package crdt
 
 // the pubsub topic validator: a message is accepted iff its signer is trusted
 //@ closure Consensus.setup#1
-//@   property C07
+//@   property C07 C02
 //@   ensures res <==> (css.config.TrustAll || uf("msgFrom", "peer.ID", msg) == hostID(css.host) || in(any(uf("msgFrom", "peer.ID", msg)), css.trustedPeers))
 
 //@ extern pubsub.Message.GetFrom()
